@@ -439,11 +439,16 @@ def colliding_optionals(G, want_dup_empty=False):
             if op in '*+':
                 inner = seqs_item(it[1])
                 check(inner)
+                if () in inner:
+                    # repeating something that can be empty: the helper rule h: x | h x gets the alternative h: h twice
+                    found[0] = True
                 return [(json.dumps(it),)] + ([()] if op == '*' else [])
             lo, hi = it[3], it[4]
             inner = seqs_item(it[1])
             if hi >= 50:
                 check(inner)
+                if () in inner:
+                    found[0] = True
                 return [(json.dumps(it),)]
             out = []
             for n in range(lo, hi + 1):
